@@ -136,6 +136,7 @@ type condSink[R any] interface {
 // altTargets: register error types through the other documented spelling of the target (pointer instead of value and
 // vice versa): HandleErrorTypes(T{}) and HandleErrorTypes(&T{}) mean the same type
 var altTargets bool
+var emptyCalls atomic.Int64
 
 func applyConds[R any](cs []cond, mk func(string) R, onErrs func(...error), onTypes func(...any), onResult func(R), onIf func(func(R, error) bool)) {
 	// registrations of one kind go through ONE variadic call, as users write HandleErrors(a, b) / HandleErrorTypes(A{}, B{})
@@ -173,6 +174,16 @@ func applyConds[R any](cs []cond, mk func(string) R, onErrs func(...error), onTy
 	}
 	if len(types) > 0 {
 		onTypes(types...)
+	}
+	// a registration call that registers nothing (an empty variadic, as in HandleErrors(cfg.Errors...) with nothing configured)
+	// changes nothing; made only when an error-inspecting condition is configured anyway, after the real registrations
+	if altTargets && (len(errs) > 0 || len(types) > 0) {
+		switch emptyCalls.Add(1) % 3 {
+		case 0:
+			onErrs()
+		case 1:
+			onTypes()
+		}
 	}
 	for _, c := range cs {
 		switch c.T {
@@ -268,6 +279,18 @@ func classifyRow[R any](row classRow, mk func(string) R, rev bool) (mis [][2]str
 		}
 		if (row.Abort != "either" && got != row.Abort) || (n == 1) != (aborts == 1) || n > 2 {
 			bad("abort", "function invoked %d times, OnAbort %d times; rule says abortable=%s", n, aborts, row.Abort)
+		}
+	}
+	// (d2) ... and on a policy that allows no retry at all an abort-matching failure is still reported as an abort
+	{
+		aborts := 0
+		b := retrypolicy.Builder[R]().WithMaxRetries(0).ReturnLastFailure().HandleIf(func(R, error) bool { return true }).
+			OnAbort(func(failsafe.ExecutionEvent[R]) { aborts++ })
+		applyConds(conds, mk, func(x ...error) { b.AbortOnErrors(x...) }, func(x ...any) { b.AbortOnErrorTypes(x...) }, func(x R) { b.AbortOnResult(x) }, func(p func(R, error) bool) { b.AbortIf(p) })
+		n := 0
+		failsafe.Get(fn(&n), b.Build())
+		if n != 1 || (row.Abort == "yes" && aborts != 1) || (row.Abort == "no" && aborts != 0) {
+			bad("abort0", "single-attempt policy: function invoked %d times, OnAbort %d times; rule says abortable=%s", n, aborts, row.Abort)
 		}
 	}
 	// (e) hedge cancel conditions: the first attempt's result is accepted at once iff cancellable
